@@ -263,7 +263,9 @@ End == /\ Is("end")
 \* (conformance with MQMem: release only from the batch handed over at an epoch change)
 \* tokenless: a handle read the published stream list after it had given its token back (MQMem: holds[h] # {} only
 \* for handles in DOMAIN tok)
-MemEv == /\ (Is("uaf") \/ Is("badfree") \/ Is("doublefree") \/ Is("earlyfree") \/ Is("tokenless"))
+\* heldfree: a stream list was released while a thread was between loading it and the end of that operation
+\* (MQMemImpl: NoUseAfterFree on the ghost holds)
+MemEv == /\ (Is("uaf") \/ Is("badfree") \/ Is("doublefree") \/ Is("earlyfree") \/ Is("tokenless") \/ Is("heldfree"))
          /\ Flag({"C16"})
          /\ UNCHANGED <<q, pend, led>>
          /\ l' = l + 1
